@@ -68,6 +68,12 @@ func runC03(r *Run) {
 		c03Sample(r, cfg)
 		return
 	}
+	// every fourth of these runs sends unbounded ends as explicitly set, empty keys
+	rowSetExplicitEmpty = (r.Index/3)%4 == 1
+	defer func() { rowSetExplicitEmpty = false }()
+	if rowSetExplicitEmpty {
+		r.Probe("c03.unbounded_ends_sent_as_empty_keys")
+	}
 	perm := newPerm(c03Space/3, r.Master+3)
 	engine := engines[r.Index%3]
 	clk := NewClock(1_700_000_000_000_000, 1_700_000_000_000_000_000)
